@@ -7,6 +7,10 @@
 // (filter → group (tags) → bucket (GROUP BY time) → aggregate → fill → order → LIMIT/OFFSET per series → SLIMIT/SOFFSET).
 // The evaluator never calls repo code.
 //
+// WHERE-tree family: in addition the tag/field slots are replaced by EVERY condition tree of depth <= 2 over the atoms
+// {h = 'a', h != 'a', h =~ /^[ac]$/, v > 2, v <= 2, v = 2} × {AND, OR} (tag predicates mixed with field predicates under
+// OR and AND in both operand orders, nested under AND and OR), evaluated by the reference per point.
+//
 // Where the InfluxQL documentation is silent the oracle accepts every reasonable answer (see Assumptions in TestCheck):
 // order of rows with equal time stamps in a merged (not grouped by tag) raw result, which of several equal-time points
 // first()/last() pick, which of several equal-valued points min()/max() report the time of, the direction of
@@ -93,7 +97,22 @@ var datasets = []Dataset{
 		{"a", 66, f(1), nil}, {"a", 79, f(3.25), nil}, {"a", 84, f(8.5), i(1)}, {"a", 97, f(0.5), nil}, {"a", 118, f(5), nil},
 		{"b", 17, f(7.5), nil}, {"b", 29, f(1.25), nil}, {"b", 51, f(0.25), nil}, {"b", 60, f(9), nil}, {"b", 84, f(2.75), nil}, {"b", 111, f(-3), nil},
 	}},
+	// D5: four float series around the constant 2 of the field atoms of the WHERE-tree family: h=a holds values below,
+	// equal to and above 2 (and one point that has only w); every value of h=b is > 2; every value of h=c is <= 2;
+	// h=d is mixed again. Equal time stamps across series, both shards, TSM + cache.
+	{Name: "D5-where-mix", Layout: "mixed", Pts: []P{
+		{"a", 5, f(1), nil}, {"a", 20, f(2), i(4)}, {"a", 35, f(3.5), nil}, {"a", 50, nil, i(7)}, {"a", 65, f(0.5), nil}, {"a", 80, f(5), i(1)}, {"a", 110, f(2), nil},
+		{"b", 5, f(4), nil}, {"b", 50, f(7.5), i(2)}, {"b", 70, f(3), nil}, {"b", 100, f(2.25), nil},
+		{"c", 20, f(0), nil}, {"c", 40, f(1.5), nil}, {"c", 65, f(2), i(9)}, {"c", 95, f(-1), nil},
+		{"d", 10, f(2), nil}, {"d", 50, f(6), nil}, {"d", 90, f(1), i(3)}, {"d", 115, f(2), nil},
+	}},
 }
+
+// whereDS is the dataset built for the WHERE-tree family; whereThoroughDS are the datasets the family runs on in the
+// thorough tier (D1: integer v with a w-only point, TSM; D2: series living in one shard only; D5).
+const whereDS = 5
+
+var whereThoroughDS = map[int]bool{1: true, 2: true, 5: true}
 
 func (d Dataset) intV() bool {
 	for _, p := range d.Pts {
@@ -188,7 +207,7 @@ func load(ds Dataset) (*mini.Fixture, mini.Bucket, error) {
 
 // Q is one statement of the grammar (every slot is an index/alternative).
 type Q struct {
-	Proj    string `json:"proj"`  // v | vw | count | sum | mean | min | max | first | last
+	Proj    string `json:"proj"`            // v | vw | count | sum | mean | min | max | first | last
 	TR      int    `json:"time,omitempty"`  // index into timeRanges
 	Tag     int    `json:"tag,omitempty"`   // 0 none, 1 h='a', 2 h!='a'
 	Field   bool   `json:"field,omitempty"` // v > 1
@@ -199,6 +218,152 @@ type Q struct {
 	Offset  int    `json:"offset,omitempty"`
 	SLimit  int    `json:"slimit,omitempty"`
 	SOffset int    `json:"soffset,omitempty"`
+	// WHERE-tree family: Cond replaces the Tag/Field slots by a condition tree over the atom alphabet (ANDed with the
+	// time range, if any). Bare: print the tree with the minimal parentheses that still parse to the same tree.
+	Cond *Cond `json:"cond,omitempty"`
+	Bare bool  `json:"bare,omitempty"`
+}
+
+// Cond is a WHERE condition tree: a leaf (Atom = 1..6, index into condAtoms) or Op ∈ {AND, OR} over two subtrees.
+type Cond struct {
+	Atom int    `json:"atom,omitempty"`
+	Op   string `json:"op,omitempty"`
+	L    *Cond  `json:"l,omitempty"`
+	R    *Cond  `json:"r,omitempty"`
+}
+
+// condAtoms: three pure tag predicates and three field-value predicates (constant 2: every dataset holds values below,
+// equal to and above it).
+var condAtoms = []string{"", "h = 'a'", "h != 'a'", "h =~ /^[ac]$/", "v > 2", "v <= 2", "v = 2"}
+
+const nTagAtoms = 3
+
+func (c *Cond) leaf() bool { return c.Op == "" }
+
+// eval: the condition per point from its tag value and the value of field v (nil = the point has no v: every
+// comparison with it is false).
+func (c *Cond) eval(h string, v any) bool {
+	if !c.leaf() {
+		if c.Op == "AND" {
+			return c.L.eval(h, v) && c.R.eval(h, v)
+		}
+		return c.L.eval(h, v) || c.R.eval(h, v)
+	}
+	switch c.Atom {
+	case 1:
+		return h == "a"
+	case 2:
+		return h != "a"
+	case 3:
+		return h == "a" || h == "c"
+	case 4:
+		return v != nil && asF(v) > 2
+	case 5:
+		return v != nil && asF(v) <= 2
+	case 6:
+		return v != nil && asF(v) == 2
+	}
+	panic("bad atom")
+}
+
+func (c *Cond) text(bare bool) string {
+	if c.leaf() {
+		return condAtoms[c.Atom]
+	}
+	sub := func(k *Cond, right bool) string {
+		t := k.text(bare)
+		if k.leaf() {
+			return t
+		}
+		// AND binds tighter than OR and both associate to the left: parentheses are needed around an OR under an AND
+		// and around a right operand with the operator of its parent.
+		if !bare || (k.Op == "OR" && c.Op == "AND") || (right && k.Op == c.Op) {
+			return "(" + t + ")"
+		}
+		return t
+	}
+	return sub(c.L, false) + " " + c.Op + " " + sub(c.R, true)
+}
+
+// kinds: does the subtree hold tag atoms / field atoms.
+func (c *Cond) kinds() (tag, field bool) {
+	if c.leaf() {
+		return c.Atom <= nTagAtoms, c.Atom > nTagAtoms
+	}
+	lt, lf := c.L.kinds()
+	rt, rf := c.R.kinds()
+	return lt || rt, lf || rf
+}
+
+func (c *Cond) depth() int {
+	if c.leaf() {
+		return 0
+	}
+	return 1 + max(c.L.depth(), c.R.depth())
+}
+
+// class: tag-only | field-only | or-tag-field (some OR node has a pure tag operand and an operand holding field atoms) |
+// or-mixed (tag and field atoms, some OR node has a tag atom below it, but none pairs a pure tag operand with a field
+// one) | mixed-and (tag and field atoms, no OR above a tag atom).
+func (c *Cond) class() string {
+	t, f := c.kinds()
+	switch {
+	case !f:
+		return "tag-only"
+	case !t:
+		return "field-only"
+	}
+	orTF, or := false, false
+	var walk func(k *Cond)
+	walk = func(k *Cond) {
+		if k.leaf() {
+			return
+		}
+		if k.Op == "OR" {
+			lt, lf := k.L.kinds()
+			rt, rf := k.R.kinds()
+			if lt || rt {
+				or = true
+			}
+			if (lt && !lf && rf) || (rt && !rf && lf) {
+				orTF = true
+			}
+		}
+		walk(k.L)
+		walk(k.R)
+	}
+	walk(c)
+	switch {
+	case orTF:
+		return "or-tag-field"
+	case or:
+		return "or-mixed"
+	}
+	return "mixed-and"
+}
+
+// condTrees: every condition tree of depth <= depth over the atom alphabet × {AND, OR}, simplest first
+// (6; +72 = 78; + 2·78² − 72 = 12 174).
+func condTrees(depth int) []*Cond {
+	var level []*Cond
+	for a := 1; a < len(condAtoms); a++ {
+		level = append(level, &Cond{Atom: a})
+	}
+	for d := 1; d <= depth; d++ {
+		next := append([]*Cond(nil), level...)
+		for _, l := range level {
+			for _, r := range level {
+				if l.depth() < d-1 && r.depth() < d-1 {
+					continue // already enumerated at a smaller depth
+				}
+				for _, op := range []string{"AND", "OR"} {
+					next = append(next, &Cond{Op: op, L: l, R: r})
+				}
+			}
+		}
+		level = next
+	}
+	return level
 }
 
 // timeRange: inclusive nanosecond bounds relative to B; has=false: no bound. Text is built from the same numbers.
@@ -295,6 +460,13 @@ func (q Q) String() string {
 	if q.Field {
 		conds = append(conds, "v > 1")
 	}
+	if q.Cond != nil {
+		t := q.Cond.text(q.Bare)
+		if len(conds) > 0 && !q.Cond.leaf() {
+			t = "(" + t + ")"
+		}
+		conds = append(conds, t)
+	}
 	if len(conds) > 0 {
 		sb.WriteString(" WHERE " + strings.Join(conds, " AND "))
 	}
@@ -378,6 +550,53 @@ func queries(thorough bool) []Q {
 		}
 	}
 	return out
+}
+
+// whereQueries: the WHERE-tree family = frames × condition trees. A frame fixes the other slots; SLIMIT/SOFFSET are
+// never combined with a tree (their candidate-series reading depends on a "tag predicate", which a tree does not have).
+func whereQueries(thorough bool) []Q {
+	all, shallow := condTrees(2), condTrees(1)
+	type frame struct {
+		q     Q
+		trees []*Cond
+	}
+	frames := []frame{
+		{Q{Proj: "v", TR: 3}, all}, // no time bound: the tree is the whole WHERE clause
+		{Q{Proj: "count", TR: 0, GB: 3}, shallow},
+		{Q{Proj: "vw", TR: 1, GB: 3, Bare: true}, shallow},
+		{Q{Proj: "v", TR: 3, Desc: true, Limit: 2, Offset: 1}, shallow},
+	}
+	if thorough {
+		frames = []frame{
+			{Q{Proj: "v", TR: 3}, all},
+			{Q{Proj: "count", TR: 0, GB: 3}, all},
+			{Q{Proj: "vw", TR: 1, GB: 3, Bare: true}, all},
+			{Q{Proj: "v", TR: 3, Desc: true, Limit: 2, Offset: 1, Bare: true}, all},
+			{Q{Proj: "max", TR: 0, GB: 4, Fill: "none"}, all},
+			{Q{Proj: "mean", TR: 2, GB: 2, Fill: "previous"}, all},
+		}
+	}
+	var out []Q
+	for _, fr := range frames {
+		for _, t := range fr.trees {
+			q := fr.q
+			q.Cond = t
+			out = append(out, q)
+		}
+	}
+	return out
+}
+
+// statements: the statement list of dataset di. D0..D4 run the template grammar, D5 the WHERE-tree family; in the
+// thorough tier the family also runs on D1 and D2 (after their grammar statements).
+func statements(di int, thorough bool, grammar, where []Q) []Q {
+	switch {
+	case di == whereDS:
+		return where
+	case thorough && whereThoroughDS[di]:
+		return append(append([]Q(nil), grammar...), where...)
+	}
+	return grammar
 }
 
 // ---------------------------------------------------------------------------------------------------------
@@ -580,6 +799,10 @@ func reference(ds Dataset, q Q, perShard bool) *expectation {
 			continue
 		}
 		if q.Field && !(p.V != nil && asF(p.V) > 1) {
+			continue
+		}
+		// WHERE-tree family: the condition is evaluated per point from its tag and field value
+		if q.Cond != nil && !q.Cond.eval(p.H, p.V) {
 			continue
 		}
 		// projection: a point contributes when at least one selected field is present
@@ -1148,6 +1371,9 @@ func projKind(q Q) string {
 func sigOf(q Q, clause string) string {
 	gb := []string{"none", "time", "time", "tag", "time+tag"}[q.GB]
 	parts := []string{"SELECT", clause, projKind(q), "groupby=" + gb}
+	if q.Cond != nil {
+		parts = append(parts, "where="+q.Cond.class())
+	}
 	if strings.HasSuffix(clause, "-error") {
 		return vlib.JoinSig(parts...) // acceptance/rejection of a statement does not depend on the other slots
 	}
@@ -1213,27 +1439,45 @@ func TestCheck(t *testing.T) {
 	vlib.Main(t, &vlib.Check{
 		ID: "C22", Level: "exploration",
 		Rule: "datasets × statements, COMPLETE product of a template grammar (no sampling). Statement = SELECT <proj> FROM m [WHERE <time> AND <tag> AND <field>] [GROUP BY <gb>] [fill(<f>)] [ORDER BY time DESC] [LIMIT/OFFSET] [SLIMIT/SOFFSET]. " +
-			"thorough: proj ∈ {v; count,sum,mean,min,max,first,last (v); v,w} × time ∈ {[0m,120m), [15m,80m], (20m,70m), none (for GROUP BY time statements: [-30m,150m)), [60m,120m), [25m,35m)} × tag ∈ {none, h='a', h!='a'} × field ∈ {none, v>1} × gb ∈ {none, time(20m), time(30m,10m), h, time(20m)+h} × fill ∈ {absent,null,none,0,previous,linear} (only with an aggregate and GROUP BY time; raw projections with GROUP BY time are enumerated once and must be rejected) × order ∈ {asc,desc} × limit ∈ {none, 1, (1,1), (2,1)} × slimit ∈ {none, 1, (1,1)} = 129 600 statements × 5 datasets (D0 two dense float series with identical time stamps, cache; D1 integer v with gaps/off-grid times/a w-only point, TSM; D2 three float series: h=a only in shard 1, h=b only in shard 2, h=c in both, TSM+cache; D3 integer v with several points per bucket and equal values/time stamps within and across series, two TSM files; D4 float v at off-grid times, every point first written with an old value into TSM and then overwritten (second TSM file / cache)); every dataset spans two 1h shard groups. " +
-			"quick: the same grammar with fewer alternatives per slot (proj {v,count,mean,max,first,v+w} × 3 time × 2 tag × 2 field × gb {none,time(30m,10m),time(20m)+h} × fill {absent,previous,linear} × 2 order × limit {none,(1,1)} × slimit {none,(1,1)} = 3 264 statements) × 5 datasets. " +
-			"Oracle: reference evaluator written from the InfluxQL documentation (see file header). non-trivial = statements for which the reference expects ≥ 1 row (distinct by construction).",
+			"thorough: proj ∈ {v; count,sum,mean,min,max,first,last (v); v,w} × time ∈ {[0m,120m), [15m,80m], (20m,70m), none (for GROUP BY time statements: [-30m,150m)), [60m,120m), [25m,35m)} × tag ∈ {none, h='a', h!='a'} × field ∈ {none, v>1} × gb ∈ {none, time(20m), time(30m,10m), h, time(20m)+h} × fill ∈ {absent,null,none,0,previous,linear} (only with an aggregate and GROUP BY time; raw projections with GROUP BY time are enumerated once and must be rejected) × order ∈ {asc,desc} × limit ∈ {none, 1, (1,1), (2,1)} × slimit ∈ {none, 1, (1,1)} = 129 600 statements × 5 datasets D0–D4 (D0 two dense float series with identical time stamps, cache; D1 integer v with gaps/off-grid times/a w-only point, TSM; D2 three float series: h=a only in shard 1, h=b only in shard 2, h=c in both, TSM+cache; D3 integer v with several points per bucket and equal values/time stamps within and across series, two TSM files; D4 float v at off-grid times, every point first written with an old value into TSM and then overwritten (second TSM file / cache)); every dataset spans two 1h shard groups. " +
+			"quick: the same grammar with fewer alternatives per slot (proj {v,count,mean,max,first,v+w} × 3 time × 2 tag × 2 field × gb {none,time(30m,10m),time(20m)+h} × fill {absent,previous,linear} × 2 order × limit {none,(1,1)} × slimit {none,(1,1)} = 3 264 statements) × 5 datasets D0–D4. " +
+			"WHERE-tree family (in addition): the <tag>/<field> slots are replaced by a condition TREE: EVERY tree of depth ≤ 2 over the atom alphabet {h = 'a', h != 'a', h =~ /^[ac]$/, v > 2, v <= 2, v = 2} × {AND, OR} (6 + 72 + 12 096 = 12 174 trees: all pure-tag, pure-field and mixed conditions, a tag predicate ORed/ANDed with a field predicate in both operand orders, and such an OR/AND nested under AND and under OR on either side), ANDed with the time range of its frame, on dataset D5 (four float series around the constant 2: h=a has values below, equal to and above 2 and a w-only point, every value of h=b is > 2, every value of h=c is ≤ 2, h=d mixed; equal time stamps across series; two shards; TSM + cache). The reference evaluates the tree per point from the point's tag and its v value (absent v ⇒ every comparison false). " +
+				"quick frames: SELECT v without time bound × all 12 174 trees; count(v) GROUP BY h in [0m,120m), SELECT v,w GROUP BY h in [15m,80m] printed with minimal parentheses, SELECT v ORDER BY time DESC LIMIT 2 OFFSET 1 × the 78 trees of depth ≤ 1 (12 408 statements). thorough frames: those four plus max(v) GROUP BY time(20m),h fill(none) and mean(v) GROUP BY time(30m,10m) fill(previous) in (20m,70m), each × all 12 174 trees (73 044 statements), on D5, D1 and D2. " +
+				"Oracle: reference evaluator written from the InfluxQL documentation (see file header). non-trivial = statements for which the reference expects ≥ 1 row (distinct by construction); coverage.extra counts the WHERE-tree cases per tree class (tag-only, field-only, mixed-and, or-tag-field, or-mixed) and how many of them expect rows.",
 		Assumptions: []string{
 			"documentation silent ⇒ accepted: order of equal-time rows in a merged raw result (and which of them LIMIT/OFFSET keeps); which equal-time point first()/last() reports; which equal-valued point's time min()/max() report without GROUP BY time; fill(previous) under ORDER BY time DESC may take the chronologically previous or the previously emitted (= later) interval; fill(linear) on integer columns may round either way; series order under ORDER BY time DESC (ascending or descending tags); SLIMIT/SOFFSET may count all series matching the tag predicate, those with rows before LIMIT/OFFSET, or those with rows after it",
 			"documented and demanded: count() reports 0 (not null) for empty intervals unless a fill option replaces it; an aggregate without GROUP BY time is stamped with the lower time bound (epoch 0 if none), a selector with its point's time; GROUP BY time buckets are aligned to epoch + offset and cover the whole WHERE range (first bucket may start before the lower bound); fill applies only to series that have ≥ 1 point in range; LIMIT/OFFSET apply per series after fill and ordering; result value types: count integer, mean float, others the field's type; raw projection with GROUP BY time is rejected",
 			"GROUP BY time statements always carry both time bounds (without an upper bound the range ends at now(); without a lower bound the first bucket is undocumented); fill() is only enumerated with GROUP BY time",
 			"float data are multiples of 0.25 so that sums are exact in any order; means and interpolations are compared with relative tolerance 1e-9",
+			"WHERE-tree family: a condition is a predicate on single points (InfluxQL documentation: tag and field predicates may be combined with AND/OR and parentheses; AND binds tighter than OR): a point is returned iff the tree holds for its tag value and its v value; a point without field v fails every v comparison; h =~ /^[ac]$/ holds for h ∈ {a, c}; trees are never combined with SLIMIT/SOFFSET; one regex, one constant, one tag key, field atoms on v only",
 			"background compaction off (mini fixture); layouts cache / TSM / TSM+cache / two TSM files / overwritten-in-TSM-and-cache are fixed per dataset",
 		},
 		QuickBudgetS: 60, ThoroughBudgetS: 800,
 		Run: func(c *vlib.Ctx) {
-			qs := queries(c.Thorough())
-			c.Note("statements_per_dataset", fmt.Sprint(len(qs)))
+			grammar, where := queries(c.Thorough()), whereQueries(c.Thorough())
+			lists := make([][]Q, len(datasets))
+			total := int64(0)
+			for di := range datasets {
+				lists[di] = statements(di, c.Thorough(), grammar, where)
+				total += int64(len(lists[di]))
+			}
+			c.Note("grammar_statements_per_dataset", fmt.Sprint(len(grammar)))
+			c.Note("where_tree_statements_per_dataset", fmt.Sprint(len(where)))
+			c.Note("where_trees_depth_le_2", fmt.Sprint(len(condTrees(2))))
 			c.Note("datasets_total", fmt.Sprint(len(datasets)))
+			c.Note("cases_total", fmt.Sprint(total))
 			// Partition: the global case index (dataset-major) is cut into NShards contiguous blocks, so that a worker
 			// builds only the one or two datasets its block touches (a dataset costs as much as ~200 statements).
-			total := int64(len(datasets)) * int64(len(qs))
 			mine := func(g int64) bool { return int(g*int64(c.NShards)/total) == c.Shard }
+			base := int64(0)
 			for di, ds := range datasets {
-				base := int64(di) * int64(len(qs))
+				qs := lists[di]
+				if di > 0 {
+					base += int64(len(lists[di-1]))
+				}
+				if len(qs) == 0 {
+					continue
+				}
 				sFirst, sLast := int(base*int64(c.NShards)/total), int((base+int64(len(qs))-1)*int64(c.NShards)/total)
 				if c.Shard < sFirst || c.Shard > sLast {
 					continue // no case of this dataset belongs to this shard (the block map is monotone)
@@ -1277,7 +1521,14 @@ func TestCheck(t *testing.T) {
 							}
 						}
 					}
-					if ex.errSub != "" {
+					if q.Cond != nil {
+						cls := q.Cond.class()
+						c.Extra("where_tree_cases/"+cls, 1)
+						if ex.maxRows > 0 {
+							c.Extra("where_tree_cases_with_rows/"+cls, 1)
+						}
+						c.Outcome(fmt.Sprintf("where=%s/series=%d/rows=%s", cls, min(nser, 3), rowClass(nrows)))
+					} else if ex.errSub != "" {
 						c.Outcome("rejected-by-compiler")
 					} else {
 						c.Outcome(fmt.Sprintf("%s/series=%d/rows=%s/nulls=%v", projKind(q), min(nser, 3), rowClass(nrows), filled))
@@ -1285,7 +1536,7 @@ func TestCheck(t *testing.T) {
 					if cl := judge(ex, rs, err); cl != "" {
 						c.Violation(diagnose(ds, q, cl, rs, err), fmt.Sprintf("%s on %s: got\n%swant\n%s", q, ds.Name, fmtGot(ex, rs), fmtWant(ex)), cs)
 					}
-					if c.WantSample() && ex.maxRows >= 3 && q.GB == 4 && q.Limit > 0 && q.Field {
+					if c.WantSample() && ex.maxRows >= 3 && ((q.GB == 4 && q.Limit > 0 && q.Field) || (q.Cond != nil && q.Cond.depth() == 2 && q.Cond.class() == "or-tag-field")) {
 						c.Sample(map[string]any{"dataset": ds.Name, "statement": q.String(), "returned": fmtGot(ex, rs)})
 					}
 				}
